@@ -339,9 +339,17 @@ func c04r3(c *an.Ctx) {
 			if x, trueNonNil, ok := nilTestOf(br.Cond); ok {
 				if ex, ok := x.(*ssa.Extract); ok {
 					if call, ok := ex.Tuple.(*ssa.Call); ok && an.IsCallTo(call.Common(), sendCancel) && ex.Index == 1 {
+						// a second test of the same error agrees with the first one
 						if (idx == 0) == trueNonNil {
+							if hasTag(st, "softnil") {
+								return st, false
+							}
 							return addTag(st, "softerr"), true
 						}
+						if hasTag(st, "softerr") {
+							return st, false
+						}
+						return addTag(st, "softnil"), true
 					}
 				}
 			}
